@@ -4,7 +4,7 @@ import KmipModel.Client
 import KmipModel.ExpectSkel
 import KmipGen.Schema
 import KmipGen.Skeleton
-import KmipProofs.WireLemmas
+import KmipProofs.WireGen
 import KmipProps.C01
 /-
   C14, generated obligations: the positions at which the client model reads the decoded Response are the fields
@@ -64,65 +64,6 @@ theorem GenC14_codec_src_disp : KmipGen.codecSrc_disp = ExpectCodec.codecSrc_dis
     concrete Request / Response descriptors. -/
 set_option linter.unusedSimpArgs false
 open Kmip.Wire
-def wireZExt : Val := zeroSD KmipGen.sd_MessageExtension
-def wireZNonce : Val := zeroSD KmipGen.sd_Nonce
-
-/-- what Decode makes of a dynamically typed value that Encode wrote: a pointer payload comes back as a value payload -/
-def normDyn : DynV → DynV
-  | .nil => .nil
-  | .val _ ty v => .val false ty (normVal ty v)
-  | .bad k => .bad k
-
-theorem ite_int_self (n : Nat) : (if n = 0 then FV.one (Val.int 0) else FV.one (Val.int n)) = FV.one (Val.int n) := by
-  split
-  · rename_i h; rw [h]
-  · rfl
-theorem ite_enum_self (n : Nat) : (if n = 0 then FV.one (Val.enum 0) else FV.one (Val.enum n)) = FV.one (Val.enum n) := by
-  split
-  · rename_i h; rw [h]
-  · rfl
-theorem ite_text_self (m : Bytes) : (if m = [] then FV.one (Val.text []) else FV.one (Val.text m)) = FV.one (Val.text m) := by
-  split
-  · rename_i h; rw [h]
-  · rfl
-
-theorem reqView_norm_mkRequest (ver : Nat × Nat) (op : Nat) (p : DynV) :
-    reqView (normVal (.struct KmipGen.sd_Request) (mkRequest wireZExt ver op p)) =
-      some { version := .struct [.one (.int ver.1), .one (.int ver.2)], corr := [], async := false, credType := 0,
-             batchCount := 1, items := [{ op := op, uid := [], payload := normDyn p }] } := by
-  cases p <;>
-  simp [mkRequest, normVal, normFlds, normFV, normMany, KmipGen.sd_Request, KmipGen.sd_RequestHeader, KmipGen.sd_RequestBatchItem,
-    KmipGen.sd_ProtocolVersion, KmipGen.sd_Authentication, KmipGen.sd_MessageExtension, SD.fields, Fld.ignored, Fld.required, Fld.ty, Fld.tag, Fld.skip,
-    specZero, zeroFld, zeroVal, zeroSD, zeroFlds, zeroAuth, wireZExt, reqView, itemIn, anyTag, ite_int_self, normDyn,
-    rqHeader, rqItems, hVersion, hClientCorr, hAsync, hAuth, hBatchCount, aCredType, iOperation, iUniqueID, iPayload]
-
-/-- the Client's view of what Decode returns for the encoded single-item Response -/
-theorem respView_norm_respVal (clock : Nat) (ver : Val) (corr : Bytes) (it : ItemIn) (res : HRes) :
-    Client.respView (normVal (.struct KmipGen.sd_Response)
-        (respVal wireZNonce wireZExt clock (fun _ _ => res)
-          { version := ver, corr := corr, async := false, credType := 0, batchCount := 1, items := [it] })) =
-      some { batchCount := 1, items := [match res with
-        | .success q => { op := it.op, status := 0, reason := 0, msg := [], payload := normDyn q }
-        | .failed r m => { op := it.op, status := 1, reason := r, msg := m, payload := .nil }] } := by
-  cases res with
-  | success q =>
-    cases q <;>
-    simp [respVal, respItems, respItem, normVal, normFlds, normFV, normMany, KmipGen.sd_Response, KmipGen.sd_ResponseHeader, KmipGen.sd_ResponseBatchItem,
-      KmipGen.sd_MessageExtension, KmipGen.sd_Nonce, SD.fields, Fld.ignored, Fld.required, Fld.ty, Fld.tag, Fld.skip,
-      specZero, zeroFld, zeroVal, zeroSD, zeroFlds, wireZExt, wireZNonce, anyTag, ite_int_self, ite_enum_self, ite_text_self, normDyn,
-      Client.respView, Client.itemView, Client.posHeader, Client.posBatchItems, Client.posBatchCount, Client.posOperation,
-      Client.posResultStatus, Client.posResultReason, Client.posResultMessage, Client.posResponsePayload, statusSuccess, statusFailed]
-  | failed r m =>
-    simp [respVal, respItems, respItem, normVal, normFlds, normFV, normMany, KmipGen.sd_Response, KmipGen.sd_ResponseHeader, KmipGen.sd_ResponseBatchItem,
-      KmipGen.sd_MessageExtension, KmipGen.sd_Nonce, SD.fields, Fld.ignored, Fld.required, Fld.ty, Fld.tag, Fld.skip,
-      specZero, zeroFld, zeroVal, zeroSD, zeroFlds, wireZExt, wireZNonce, anyTag, ite_int_self, ite_enum_self, ite_text_self, normDyn,
-      Client.respView, Client.itemView, Client.posHeader, Client.posBatchItems, Client.posBatchCount, Client.posOperation,
-      Client.posResultStatus, Client.posResultReason, Client.posResultMessage, Client.posResponsePayload, statusSuccess, statusFailed]
-
-theorem GenC14_request_schema_ok : KmipGen.sd_Request.descOk = true ∧ SD.OK KmipGen.sd_Request = true ∧ KmipGen.sd_Request.tag < tagMax ∧
-    KmipGen.sd_Response.descOk = true ∧ SD.OK KmipGen.sd_Response = true ∧ KmipGen.sd_Response.tag < tagMax := by
-  decide +kernel
-
 /-- **End to end, through the bytes.**  `Client.Send(op, p)` builds a Request (`mkRequest`); whatever bytes `rb` Encode writes
     for it, the Server's Decode of those bytes yields a Request of which `handleBatch` makes the Response `resp` shown below -
     the handler (`H`) having seen the operation and the (normalised) payload the Client sent; and whatever bytes `sb` Encode
@@ -143,7 +84,7 @@ theorem GenC14_e2e_over_the_wire (ver : Nat × Nat) (op : Nat) (p : DynV) (clock
             (match H 0 { op := op, uid := [], payload := normDyn p } with
              | .success q => .payload (normDyn q)
              | .failed r m => .failure r m)) := by
-  obtain ⟨hd1, hok1, ht1, hd2, hok2, ht2⟩ := GenC14_request_schema_ok
+  obtain ⟨hd1, hok1, ht1, hd2, hok2, ht2⟩ := wire_schemas_ok
   obtain ⟨d1, hdec⟩ := C01_roundtrip KmipGen.sd_Request _ rb fin1 hd1 hok1 ht1 hwq hsq heq
   have hview := reqView_norm_mkRequest ver op p
   refine ⟨_, d1, respVal wireZNonce wireZExt clock H
